@@ -174,6 +174,7 @@ structure ReadResp where
   etag : Option Val := none
   umeta : List (Nat × Val) := []
   hdrs : List (Attr × Val) := []
+  tags : Option Val := none      -- GET: the tag set (x-amz-tagging-count is derived from it)
 deriving DecidableEq, Repr, Inhabited
 
 inductive Resp where
@@ -266,7 +267,7 @@ def readAct (t : Option Inode) (l : Local) : Act → Local
   | .getetag => { l with acc := { l.acc with etag := t.bind (fun ino => getAttr ino.attrs .etag) } }
   | .gettags => match t with
     | none => fail l
-    | some _ => l
+    | some ino => { l with acc := { l.acc with tags := getAttr ino.attrs .tags } }
   | _ => l
 
 /-- execute action `a` of request `rq` (whose remaining program `l.prog` no longer contains `a`). -/
@@ -406,6 +407,7 @@ def observe (ino : Inode) (head : Bool) : ReadResp :=
     body := if head then none else some ino.data
     etag := getAttr ino.attrs .etag
     umeta := metaOf ino.attrs (umetaKeys ino.attrs)
-    hdrs := hdrsOf ino.attrs hdrAttrs }
+    hdrs := hdrsOf ino.attrs hdrAttrs
+    tags := if head then none else getAttr ino.attrs .tags }
 
 end Vgw.Model.Conc
